@@ -1,4 +1,178 @@
-(* Property C13 -- statements only; proofs live in Proofs/C13_*.v *)
+(* Property C13 -- statements only; proofs live in Proofs/C13_*.v.
+   Model: Model/C13_Resume.v.  A history is a list of events (connection attempt offering any
+   client Session object, close clean/fatal/abrupt, clock, server reconfiguration incl. ticket-key
+   rotation and cache parameters, ticket alteration/forgery, deviating-client events);
+   `reachable fixed w` = w is the world after ANY history from ANY initial configuration.
+   Every connection of every history is `conn_delta fixed w cp sv` for a reachable w, and its log
+   entry is `d_log (conn_delta ...)`, so the statements below speak about all of them.
+   ideal_aead = H-ideal-AEAD (symbolic): open succeeds exactly on seals under the same key. *)
 From Coq Require Import ZArith List Bool.
-From TV Require Import Base.Prelude Model.C13_Resume.
+From TV Require Import Base.Prelude Model.C13_Resume Proofs.C13_Decide Proofs.C13_Hist Proofs.C13_Thms.
+Import ListNotations.
 Open Scope Z_scope.
+
+Section C13.
+Variable blob : Type.
+Variable seal : Z -> Z -> payload -> blob.
+Variable open : Z -> blob -> option payload.
+Variable tamper : blob -> Z -> blob.
+Variable junk : Z -> blob.
+
+(* resume_sound + resume_preserves, TLS <= 1.2 (session ID and ticket), all histories:
+   the server resumes => suite still acceptable and offered, SNI / SRP user / EtM / EMS consistent,
+   found in the cache (resumable, not older than maxAge) or under a CURRENT ticket key within the
+   lifetime, and it stems from a connection r0 of the history that completed, whose suite, EMS, EtM,
+   server name, client identity and master secret the resumed connection has. *)
+Theorem resume_sound_and_preserves_ideal : ideal_aead blob seal open tamper junk ->
+  forall fixed w cp sv cr,
+  reachable blob seal open tamper junk fixed w -> zget (w_servers w) (cp_srv cp) = Some sv ->
+  let r := d_log blob (conn_delta blob seal open fixed w cp sv) in
+  r_out r = ODone true cr -> r_ver r < 4 ->
+  exists h s o,
+    r_hello r = Some h /\ r_sview r = Some s /\ r_src r = Some o /\
+    zmem (s_suite s) (o_acc cp) = true /\ hello_consistent s h /\
+    match o with
+    | ByCache => accepted_by_cache blob (sv_cfg sv) (sv_store sv) h (w_now w) s
+    | ByTicket k => accepted_by_ticket blob open (sv_cfg sv) h (w_now w) k s
+    | ByPsk _ => False
+    end /\
+    exists r0 v0, In r0 (w_log w) /\ is_done (r_out r0) /\ r_sview r0 = Some v0 /\ same_security s v0 /\
+                  (o = ByCache -> r_out r0 = ODone false false /\ v0 = s).
+Proof. exact (resume_sound_preserves12 blob seal open tamper junk). Qed.
+
+(* TLS 1.3 PSK, all histories -- PARTIAL: current key, version, PRF hash, binder secret, issuing
+   connection completed, client identity / hash / EMS / EtM carried over.
+   MISSING (false of the model and of the code, see the _refuted theorems): ticket lifetime,
+   server name and cipher suite equal to the issuing connection's. *)
+Theorem resume_sound_and_preserves_tls13_partial_ideal : ideal_aead blob seal open tamper junk ->
+  forall fixed w cp sv cr,
+  reachable blob seal open tamper junk fixed w -> zget (w_servers w) (cp_srv cp) = Some sv ->
+  let r := d_log blob (conn_delta blob seal open fixed w cp sv) in
+  r_out r = ODone true cr -> 4 <= r_ver r ->
+  exists h b bk k p s,
+    r_hello r = Some h /\ h_psk h = Some (b, bk) /\ r_sview r = Some s /\ r_src r = Some (ByPsk k) /\
+    In k (sv_keys (sv_cfg sv)) /\ open k b = Some p /\ p_ver p = 4 /\ p_hash p = o_fhash cp /\ bk = p_ms p /\
+    exists r0 v0, In r0 (w_log w) /\ is_done (r_out r0) /\ r_sview r0 = Some v0 /\
+                  s_ccert s = s_ccert v0 /\ s_hash s = s_hash v0 /\ s_ems s = true /\ s_etm s = false /\
+                  s_origin s = s_origin v0.
+Proof. exact (resume_sound_preserves13_partial blob seal open tamper junk). Qed.
+
+(* altered, forged or foreign ticket bytes: the server declines (and tries nothing else) *)
+Theorem ticket_forgery_rejected_ideal : ideal_aead blob seal open tamper junk ->
+  forall cfg st acc (h : hello blob) now b,
+  h_ticket h = Some b -> not_under_current_key seal tamper junk (sv_keys cfg) b ->
+  server_try_resume blob open cfg st acc h now = (st, SFull).
+Proof. exact (ticket_forgery_rejected blob seal open tamper junk). Qed.
+
+Theorem psk_forgery_rejected_ideal : ideal_aead blob seal open tamper junk ->
+  forall cfg cp (h : hello blob) b bk,
+  h_psk h = Some (b, bk) -> not_under_current_key seal tamper junk (sv_keys cfg) b ->
+  server_psk blob open cfg cp h = S13Full.
+Proof. exact (psk_forgery_rejected blob seal open tamper junk). Qed.
+
+(* unknown session ID: declined *)
+Theorem unknown_session_id_declined :
+  forall cfg st acc (h : hello blob) now,
+  h_ticket h = None -> cache_find (h_sid h) (purge (sv_maxage cfg) now st) = None ->
+  snd (server_try_resume blob open cfg st acc h now) = SFull.
+Proof. exact (server_try_resume_unknown_id blob open). Qed.
+
+(* invalidated_never_resumes, server side, session-ID path: after any connection bound to the cached
+   session died abnormally at the server (cr_ks), no connection of any continuation resumes it by ID *)
+Theorem invalidated_never_resumes_ideal : ideal_aead blob seal open tamper junk ->
+  forall fixed w cp sv cr crec sid,
+  reachable blob seal open tamper junk fixed w -> zget (w_servers w) (cp_srv cp) = Some sv ->
+  In crec (w_conns w) -> cr_ks crec = true -> cr_sobj crec = Some sid -> cr_srv crec = cp_srv cp ->
+  let r := d_log blob (conn_delta blob seal open fixed w cp sv) in
+  r_out r = ODone true cr -> r_ver r < 4 -> r_src r = Some ByCache ->
+  forall s, r_sview r = Some s -> s_sid s <> sid.
+Proof. exact (invalidated_never_resumes_by_id blob seal open tamper junk). Qed.
+
+(* invalidated_never_resumes, client side: a Session object whose resumable flag is cleared is not
+   offered and the connection is not a resumption (any version, any mechanism) *)
+Theorem invalidated_never_offered_by_client :
+  forall fixed w cp sv i c0,
+  reachable blob seal open tamper junk fixed w -> zget (w_servers w) (cp_srv cp) = Some sv ->
+  cp_offer cp = Some i -> zget (w_clients w) i = Some c0 -> c_res c0 = false ->
+  let r := d_log blob (conn_delta blob seal open fixed w cp sv) in
+  r_offer_valid r = false /\ forall cr, r_out r <> ODone true cr.
+Proof. exact (invalidated_never_offered blob seal open tamper junk). Qed.
+
+(* fallback_completes -- PARTIAL.  Full statement: whenever the server declines (decision SFull /
+   S13Full) and a full negotiation is possible, both ends complete a full handshake.  Proved for
+   TLS 1.3, for TLS <= 1.2 when the offered session holds no live ticket (pure session-ID), and for
+   every case with the repaired client (fixed = true).  The remaining case is refuted below (F1). *)
+Theorem fallback_completes_partial :
+  forall fixed w cp sv h used,
+  reachable blob seal open tamper junk fixed w -> zget (w_servers w) (cp_srv cp) = Some sv ->
+  client_offer blob fixed cp (offered blob w cp) (w_now w) (w_fresh w) = Offer blob h used ->
+  o_fsuite cp <> 0 ->
+  let r := d_log blob (conn_delta blob seal open fixed w cp sv) in
+  let v := Z.min (cp_maxv cp) (sv_maxv (sv_cfg sv)) in
+  (4 <= v -> server_psk blob open (sv_cfg sv) cp h = S13Full -> r_out r = ODone false false) /\
+  (v < 4 -> snd (server_try_resume blob open (sv_cfg sv) (sv_store sv) (o_acc cp) h (w_now w)) = SFull ->
+   fixed = true \/ no_live_ticket used -> r_out r = ODone false false).
+Proof. exact (fallback_completes_partial blob seal open tamper junk). Qed.
+
+End C13.
+
+(* the hypotheses are satisfiable: the symbolic AEAD used to run the model *)
+Example ideal_aead_instance : ideal_aead sblob Sealed sopen Tampered Junk.
+Proof. exact sym_aead_ideal. Qed.
+
+(* fallback_completes REFUTED for TLS <= 1.2 tickets (finding F1): history
+   [full handshake with ticket under key 1; clean close; server replaces the key by 7]; the client
+   offers the session; the server declines; a full negotiation is possible; the client aborts with
+   unexpected_message. *)
+Theorem fallback_completes_refuted :
+  let w := srun false [wit_cfg 3 [1] 400] wit_f1_history in
+  let cp := wit_cp 3 (Some 0) 1 49199 in
+  exists sv h used,
+    zget (w_servers w) 0 = Some sv /\
+    client_offer sblob false cp (offered sblob w cp) (w_now w) (w_fresh w) = Offer sblob h used /\
+    snd (server_try_resume sblob sopen (sv_cfg sv) (sv_store sv) (o_acc cp) h (w_now w)) = SFull /\
+    o_fsuite cp <> 0 /\
+    r_out (d_log sblob (conn_delta sblob Sealed sopen false w cp sv)) = OAbortC unexpected_message.
+Proof. exact fallback_refuted_witness. Qed.
+
+(* the same history with the repaired client (proposed_fixes/C13-1.diff) completes *)
+Example fallback_completes_fixed_example :
+  let w := srun true [wit_cfg 3 [1] 400] wit_f1_history in
+  let cp := wit_cp 3 (Some 0) 1 49199 in
+  exists sv, zget (w_servers w) 0 = Some sv /\
+    r_out (d_log sblob (conn_delta sblob Sealed sopen true w cp sv)) = ODone false false.
+Proof. exact fallback_fixed_witness. Qed.
+
+(* resume_sound "within lifetime" REFUTED for TLS 1.3: ticketLifetime 100 s, offered 1000 s later *)
+Theorem resume_sound_tls13_lifetime_refuted :
+  let w := srun false [wit_cfg 4 [1] 400] wit_13_expired in
+  let cp := wit_cp 4 (Some 0) 1 4865 in
+  exists sv h b bk p,
+    zget (w_servers w) 0 = Some sv /\
+    r_out (d_log sblob (conn_delta sblob Sealed sopen false w cp sv)) = ODone true true /\
+    r_hello (d_log sblob (conn_delta sblob Sealed sopen false w cp sv)) = Some h /\
+    h_psk h = Some (b, bk) /\ sopen 1 b = Some p /\
+    p_created p + sv_life (sv_cfg sv) < w_now w.
+Proof. exact tls13_lifetime_refuted_witness. Qed.
+
+(* resume_preserves (server name, suite) REFUTED for TLS 1.3; the client identity is carried over *)
+Theorem resume_preserves_tls13_sni_suite_refuted :
+  let w := srun false [wit_cfg 4 [1] 400] wit_13_sni in
+  let cp := wit_cp 4 (Some 0) 2 4867 in
+  exists sv s r0 v0,
+    zget (w_servers w) 0 = Some sv /\
+    r_out (d_log sblob (conn_delta sblob Sealed sopen false w cp sv)) = ODone true true /\
+    r_sview (d_log sblob (conn_delta sblob Sealed sopen false w cp sv)) = Some s /\
+    nth_error (w_log w) 0 = Some r0 /\ r_sview r0 = Some v0 /\
+    s_ccert s = s_ccert v0 /\ s_ccert s = 1 /\ s_sni s <> s_sni v0 /\ s_suite s <> s_suite v0.
+Proof. exact tls13_sni_suite_refuted_witness. Qed.
+
+(* invalidated_never_resumes REFUTED for the ticket path at the server (stateless tickets) *)
+Theorem invalidated_never_resumes_ticket_refuted :
+  let w := srun false [wit_cfg 3 [1] 400] wit_ticket_survives in
+  let cp := wit_cp 3 (Some 0) 1 49199 in
+  exists sv crec,
+    zget (w_servers w) 0 = Some sv /\ nth_error (w_conns w) 0 = Some crec /\ cr_ks crec = true /\
+    r_out (d_log sblob (conn_delta sblob Sealed sopen false w cp sv)) = ODone true true /\
+    r_src (d_log sblob (conn_delta sblob Sealed sopen false w cp sv)) = Some (ByTicket 1).
+Proof. exact ticket_outlives_invalidation_witness. Qed.
